@@ -11,6 +11,7 @@ import JanetModel.Strtod.RoundTrip
 import JanetModel.Strtod.WrapFree
 import JanetModel.Strtod.Log2Cert
 import JanetModel.Strtod.Rational
+import JanetModel.Strtod.Accept
 
 namespace JanetModel.Props.C13
 open JanetModel.Strtod JanetModel.Gen.Strtod
@@ -584,8 +585,8 @@ def LibcPrinted17 (l : Lit) (k : Nat) : Prop :=
     half an ulp of `k`, so double rounding is harmless; overflow impossible).
     Stated about the C-TYPED model (`wrap_free`); the libm `log2` table is certified (`log2_table_within_1ulp`), the clamp
     condition discharged.  What remains outside (hypotheses, stated explicitly): (1) `LibcPrinted17` — libc; (2) that the
-    printed text is ACCEPTED by the scanner (`h`): `%.17g` output has the shape `[-]d[.ddd][e±dd]`, tested on every `p17`
-    case (25 000 per quick run, every binade boundary ±1, every subnormal width). -/
+    printed text is ACCEPTED by the scanner (`h`) — discharged for every text of the `%.17g` shape `[-]d[.ddd][e±dd]` by
+    `printed_text_accepted`; `print17_roundtrip_text` below is the combined statement. -/
 theorem print17_roundtrip (str : List Nat) (base0 : Nat) (hb : base0 ≤ 36)
     (bits : Nat) (h : scanNumberBaseW str base0 = some bits) (k : Nat) (hk0 : 0 < k) (hk : k < infBits)
     (hlibc : LibcPrinted17 (denote str base0) k) :
@@ -595,6 +596,45 @@ theorem print17_roundtrip (str : List Nat) (base0 : Nat) (hb : base0 ≤ 36)
   apply scan_roundtrip str base0 hb (fun b h2 h36 => log2_table_within_1ulp b h2 h36) (Or.inr (by decide)) bits h k hk0 hk
   rw [hb10]
   exact close17_of_half_unit _ _ _ d (10 ^ jp * 2 ^ 1074) (10 ^ jn) hd (Nat.pow_pos (by decide)) hval h1 h2
+
+/-- ★ `printed_text_accepted`: every text of the shape `[-] D (D|.)* [e [+|-] D+]` (body: decimal digits with at most one
+    point, starting with a digit) of at most INT32_MAX/40 bytes is accepted by `janet_scan_number` — the shape of libc's
+    `%.17g` output for every finite double.  Closes the syntactic side condition of `print17_roundtrip`. -/
+theorem printed_text_accepted (neg : Bool) (d0 : Nat) (ds es ed : List Nat) (hasExp : Bool)
+    (hd0 : IsDecCh d0) (hds : MantShape false ds)
+    (hes : es = [] ∨ es = [43] ∨ es = [45]) (hed : ed ≠ []) (hd : ∀ c ∈ ed, IsDecCh c)
+    (hlen : ((if neg then [45] else []) ++ d0 :: ds ++ (if hasExp then 101 :: (es ++ ed) else [])).length ≤ lenLimit) :
+    (scanNumber ((if neg then [45] else []) ++ d0 :: ds ++ (if hasExp then 101 :: (es ++ ed) else []))).isSome = true := by
+  have h := decimal_text_accepted neg d0 ds es ed hasExp hd0 hds hes hed hd hlen
+  unfold scanNumber
+  rw [scanNumberBaseW_eq _ 0 (by decide)]
+  unfold scanNumberBase
+  rw [Option.isSome_map]
+  exact h
+
+/-- ★★ `print17_roundtrip_text`: the round trip with acceptance discharged — for every text of the `%.17g` shape whose denoted
+    value satisfies the libc hypothesis `LibcPrinted17` for the finite non-zero double `k`, `janet_scan_number` SUCCEEDS and
+    returns exactly `k` with the text's sign.  The only hypothesis about the outside world left is `LibcPrinted17`. -/
+theorem print17_roundtrip_text (neg : Bool) (d0 : Nat) (ds es ed : List Nat) (hasExp : Bool)
+    (hd0 : IsDecCh d0) (hds : MantShape false ds)
+    (hes : es = [] ∨ es = [43] ∨ es = [45]) (hed : ed ≠ []) (hd : ∀ c ∈ ed, IsDecCh c)
+    (hlen : ((if neg then [45] else []) ++ d0 :: ds ++ (if hasExp then 101 :: (es ++ ed) else [])).length ≤ lenLimit)
+    (k : Nat) (hk0 : 0 < k) (hk : k < infBits)
+    (hlibc : LibcPrinted17 (denote ((if neg then [45] else []) ++ d0 :: ds ++ (if hasExp then 101 :: (es ++ ed) else [])) 0) k) :
+    scanNumber ((if neg then [45] else []) ++ d0 :: ds ++ (if hasExp then 101 :: (es ++ ed) else [])) =
+      some (withSign (denote ((if neg then [45] else []) ++ d0 :: ds ++ (if hasExp then 101 :: (es ++ ed) else [])) 0).neg k) := by
+  have hacc := printed_text_accepted neg d0 ds es ed hasExp hd0 hds hes hed hd hlen
+  generalize (if neg then [45] else []) ++ d0 :: ds ++ (if hasExp then 101 :: (es ++ ed) else []) = str at *
+  cases hs : scanNumber str with
+  | none => rw [hs] at hacc; simp at hacc
+  | some bits =>
+    unfold scanNumber at hs
+    rw [print17_roundtrip str 0 (by decide) bits hs k hk0 hk hlibc]
+
+/-- non-vacuity: "-4.9406564584124654e-324" has the accepted shape (d0 = '4', body ".9406…", exponent "-324") -/
+example : (scanNumber ([45] ++ 52 :: [46, 57, 52, 48, 54, 53, 54, 52, 53, 56, 52, 49, 50, 52, 54, 53, 52] ++ 101 :: ([45] ++ [51, 50, 52]))).isSome = true :=
+  printed_text_accepted true 52 [46, 57, 52, 48, 54, 53, 54, 52, 53, 56, 52, 49, 50, 52, 54, 53, 52] [45] [51, 50, 52] true
+    (by unfold IsDecCh; decide) (by simp [MantShape, IsDecCh]) (by simp) (by simp) (by simp [IsDecCh]) (by decide)
 
 /-- ★ `convert` reads back: any mantissa the scanner can build, radix 2..36, |ex| < 2^31, value `Close17` to the finite
     non-zero double `k` ⇒ `convert` returns exactly `k` (signed) -/
